@@ -175,12 +175,10 @@ impl packed::Block {
 
     /// Gets the extension field if it existed.
     ///
-    /// # Panics
-    ///
-    /// Panics if the first extra field exists but not a valid [`Bytes`](struct.Bytes.html).
+    /// Returns `None` if the first extra field is not a valid [`Bytes`](struct.Bytes.html).
     pub fn extension(&self) -> Option<packed::Bytes> {
         self.extra_field(0)
-            .map(|data| packed::Bytes::from_slice(&data).unwrap())
+            .and_then(|data| packed::Bytes::from_slice(&data).ok())
     }
 }
 
@@ -211,12 +209,10 @@ impl packed::CompactBlock {
 
     /// Gets the extension field if it existed.
     ///
-    /// # Panics
-    ///
-    /// Panics if the first extra field exists but not a valid [`Bytes`](struct.Bytes.html).
+    /// Returns `None` if the first extra field is not a valid [`Bytes`](struct.Bytes.html).
     pub fn extension(&self) -> Option<packed::Bytes> {
         self.extra_field(0)
-            .map(|data| packed::Bytes::from_slice(&data).unwrap())
+            .and_then(|data| packed::Bytes::from_slice(&data).ok())
     }
 }
 
@@ -249,12 +245,10 @@ impl<'r> packed::BlockReader<'r> {
 
     /// Gets the extension field if it existed.
     ///
-    /// # Panics
-    ///
-    /// Panics if the first extra field exists but not a valid [`BytesReader`](struct.BytesReader.html).
+    /// Returns `None` if the first extra field is not a valid [`BytesReader`](struct.BytesReader.html).
     pub fn extension(&self) -> Option<packed::BytesReader<'_>> {
         self.extra_field(0)
-            .map(|data| packed::BytesReader::from_slice(data).unwrap())
+            .and_then(|data| packed::BytesReader::from_slice(data).ok())
     }
 }
 
